@@ -630,6 +630,26 @@ def normalise(results):
     return out
 
 
+def supersede_cases(rng, n):
+    """an attribute whose object is held is superseded by renaming another held object onto its name - for every
+    context, with values drawn from the whole pool (the empty value included), through either spelling of the name"""
+    out = []
+    for _ in range(n):
+        ctx = rng.choice(CONTEXTS)
+        va, vb = rng.choice(VALUES), rng.choice(VALUES)
+        acc_a = rng.choice([["local", "a"], ["pair", ctx["node_ns"], "a"]])
+        ops = [{"op": "set", "acc": acc_a, "value": va}, {"op": "set", "acc": ["local", "b"], "value": vb},
+               {"op": "get", "acc": acc_a}, {"op": "get", "acc": ["local", "b"]},
+               {"op": "view_value", "pick": 0.0}, {"op": "view_value", "pick": 0.5},
+               {"op": "view_rename", "pick": 0.5, "ns": rng.choice([ctx["node_ns"], ctx["node_ns"], ""]), "name": "a",
+                "by": rng.choice(["key", "parts"])},
+               {"op": "view_value", "pick": 0.0}, {"op": "view_value", "pick": 0.5}, {"op": "iter"}, {"op": "getvalue", "acc": acc_a},
+               {"op": "view_set", "pick": 0.0, "value": "w"}, {"op": "getvalue", "acc": acc_a}, {"op": "view_value", "pick": 0.5},
+               {"op": "get", "acc": acc_a}, {"op": "len"}]
+        out.append({"ctx": ctx["name"], "ops": ops})
+    return out
+
+
 def corpus():
     get_a = {"op": "get", "acc": ["local", "a"]}
     value0 = {"op": "view_value", "pick": 0.0}
@@ -685,6 +705,7 @@ def check(run: Run, lean: dict) -> int:
              if f.get("status") == "fixed" and "ops" in f.get("replay", {})]
     run_cases(run, corpus() + fixed + defect_cases(), "corpus", ok)
     run_cases(run, [gen_case(run.rng) for _ in range(n)], "generated", ok)
+    run_cases(run, supersede_cases(run.rng, n // 5), "superseding rename", ok)
     run_cases(run, [gen_eq_case(run.rng) for _ in range(n // 3)], "equality", ok)
     return run.finish(lean, LEVEL, ASSUME, search=search)
 
